@@ -138,13 +138,27 @@ def build_layer(idx: int, spec: List[Tuple[str, List[int]]], r: random.Random, n
             # depends on which service it is used for)
             neg_names.append(r.choice(ngs)["name"])
         services.append({"name": f"svc{k}", "request": rq["name"], "pos": pos_names, "neg": neg_names})
+    echo = {"p": "MATCHING-REQUEST-PARAM", "name": "rq_sid", "req_pos": 0, "len": 1}
+
+    def nrcs(vals: List[int]) -> Dict[str, Any]:
+        return {"p": "NRC-CONST", "name": "nrc", "byte": None, "bit": None,
+                "dct": dct_std("A_UINT32", 8), "values": vals}
+
+    def gnr(g: int, params: List[Dict[str, Any]]) -> Dict[str, Any]:
+        return {"name": f"gnr{g}", "shape": "gneg", "feat": {"shape": "gneg"},
+                "params": [u8const("nsid", 0x7F)] + params}
+
     gneg = []
-    for g in range(n_gnr):
-        gneg.append({"name": f"gnr{g}", "shape": "gneg", "feat": {"shape": "gneg"},
-                     "params": [u8const("nsid", 0x7F),
-                                {"p": "MATCHING-REQUEST-PARAM", "name": "rq_sid", "req_pos": 0, "len": 1},
-                                p_value("nrc", "u8")] if g == 0 else
-                     [u8const("nsid", 0x7F), u8const("any", 0x00), p_value("nrc", "u8")]})
+    if n_gnr >= 3:
+        # several global negative responses with one constant prefix, told apart by their
+        # NRC-CONST lists and their lengths; the specific ones are listed first
+        gneg = [gnr(0, [dict(echo), nrcs([0x31]), p_value("detail", "u8")]),
+                gnr(1, [dict(echo), nrcs([0x21, 0x78])]),
+                gnr(2, [dict(echo), nrcs([0x11, 0x12, 0x22, 0x31])])]
+    else:
+        for g in range(n_gnr):
+            gneg.append(gnr(g, [dict(echo), p_value("nrc", "u8")] if g == 0 else
+                            [u8const("any", 0x00), p_value("nrc", "u8")]))
     return {"kind": "BASE-VARIANT", "name": f"L{idx}", "dobjs": [dict(d) for d in POOL],
             "requests": rqs, "pos": prs, "neg": ngs, "gneg": gneg, "services": services,
             "spec": [[s, c] for s, c in spec]}
@@ -289,7 +303,7 @@ def judge(col: common.Collector, ll: codecrun.LoadedLayer, model: Dict[str, Any]
 def run_layer(task: Tuple, col: common.Collector) -> None:
     idx, spec, tier, wseed = task
     r = random.Random(wseed)
-    model = build_layer(idx, [(s, list(c)) for s, c in spec], r, r.choice([0, 0, 1, 2]))
+    model = build_layer(idx, [(s, list(c)) for s, c in spec], r, r.choice([0, 0, 1, 2, 3]))
     try:
         ll = codecrun.LoadedLayer(model)
     except Exception as e:
@@ -342,6 +356,18 @@ def run_layer(task: Tuple, col: common.Collector) -> None:
                             pdu2[2] = r.choice(p["values"] + [0x99])
                     own.append((bytes(pdu2), e.pdu, "own-response"))
                     own.append((bytes(pdu2), None, "own-response-as-message"))
+    if model["gneg"]:
+        # negative response messages for the SIDs of the layer, with listed and unlisted NRCs
+        sids = sorted({M[0] for M, q, c in own if c == "own-request" and M})[:3]
+        rq_of = {M[0]: M for M, q, c in own if c == "own-request" and M}
+        for sid in sids + [0x10]:
+            for nrc in (0x11, 0x21, 0x22, 0x31, 0x78, 0x99):
+                for tail in (b"", b"\x05"):
+                    M = bytes([0x7F, sid, nrc]) + tail
+                    own.append((M, None, "gnr-message"))
+                    if sid in rq_of:
+                        own.append((M, rq_of[sid], "gnr-response"))
+        col.count("layers-with-gnr")
     alpha = sorted({c for _, cs in spec for c in cs[:2]} | {0x00, 0x7F, 0x62})[:6]
     strings = [bytes(t) for n in range(0, 4) for t in itertools.product(alpha, repeat=n)]
     if tier == "quick" and len(strings) > 60:
